@@ -436,6 +436,8 @@ func (x *Exec) Apply(st Step) error {
 			ej["redaction_policy"] = parts[1]
 		case "far":
 			ej["timezone"] = "Pacific/Kiritimati" // UTC+14: midday UTC is already the next day
+		case "mid":
+			ej["timezone"] = "Pacific/Tarawa" // UTC+12, no daylight saving: midday UTC is exactly the next local midnight
 		case "alt":
 			ej["date_format"] = "DD-MM-YYYY"
 			ej["time_format"] = "tt:mm:ss"
